@@ -32,18 +32,24 @@ NAMES = ('HardSphere', 'Exponential', 'LennardJones', 'HardCoreLennardJones', 'W
 
 
 def make_potential(name, p, sigma):
+    """constructed the way a user writes it: an argument whose value is the documented default (high_value=1e6, rcut=None,
+    shift=False) is left out, so the defaults themselves are exercised"""
     P = target()
-    if name == 'HardSphere':
-        return P.potential.HardSphere(sigma=sigma, high_value=p['high_value'])
+    kw = {'sigma': sigma}
+    if name != 'HardSphere':
+        kw['epsilon'] = p['epsilon']
     if name == 'Exponential':
-        return P.potential.Exponential(epsilon=p['epsilon'], alpha=p['alpha'], sigma=sigma, high_value=p['high_value'])
-    if name == 'HardCoreLennardJones':
-        return P.potential.HardCoreLennardJones(epsilon=p['epsilon'], sigma=sigma, high_value=p['high_value'])
+        kw['alpha'] = p['alpha']
+    if name in ('HardSphere', 'Exponential', 'HardCoreLennardJones') and not (type(p['high_value']) is float and p['high_value'] == 1e6):
+        kw['high_value'] = p['high_value']
     if name == 'LennardJones':
-        return P.potential.LennardJones(epsilon=p['epsilon'], sigma=sigma, rcut=p.get('rcut'), shift=bool(p.get('shift')))
-    if name == 'WeeksChandlerAndersen':
-        return P.potential.WeeksChandlerAndersen(epsilon=p['epsilon'], sigma=sigma)
-    raise ValueError(name)
+        if p.get('rcut') is not None:
+            kw['rcut'] = p['rcut']
+        if p.get('shift'):
+            kw['shift'] = True
+    if name not in NAMES:
+        raise ValueError(name)
+    return getattr(P.potential, name)(**kw)
 
 
 def magnitude(name, p, r, sigma):
